@@ -540,6 +540,9 @@ func readOutcome(rs []string) (data []byte, term string) {
 		if x == "panic" {
 			return data, "panic"
 		}
+		if strings.HasPrefix(x, "+") {
+			return data, "pending"
+		}
 		f := strings.Split(x, ":")
 		data = append(data, hx.UH(f[0])...)
 		if f[1] != "nil" {
